@@ -188,7 +188,7 @@ Theorem hstep_inv cf : forall o h h' ob,
   Inv (h_td h) -> hstep cf h o = Ok (h', ob) -> Inv (h_td h').
 Proof.
   induction o as [c r d|c r|c r v| |idx s|s|idx s|s|idx steps fin|steps fin|idx steps fin|steps fin
-                  | | | |c r v|v| | |k| |k o IH]; intros h h' ob Hi H; cbn [hstep] in H.
+                  | | | |c r v|v| | |k| |k o IH|kind k o IH|c r d]; intros h h' ob Hi H; cbn [hstep] in H.
   - (* from_vec *)
     destruct (negb (zero_rule_ok c r)) eqn:Ez; [inversion H; subst; exact Hi|].
     apply Bool.negb_false_iff in Ez.
@@ -239,6 +239,30 @@ Proof.
   - (* an element destructor panics during the step: same array *)
     destruct (hstep cf h o) as [[h1 ob1]| |] eqn:E; cbn [bind] in H; try discriminate.
     destruct (negb (cf_track cf)); inversion H; subst; eapply IH; eauto.
+  - (* a panicking Clone / Default: unchanged, or a partly completed fill of the same length *)
+    destruct (negb (cf_track cf)); [eapply IH; eauto|].
+    destruct (fuse_fires cf h kind k o) as [[h1 ob1]|] eqn:Ef; [|eapply IH; eauto].
+    inversion H; subst h1 ob1. clear H.
+    unfold fuse_fires in Ef.
+    destruct kind as [|[|kind]]; [| |discriminate]; destruct o; try discriminate.
+    + (* init *)
+      destruct (zero_rule_ok c r); [|discriminate]. destruct (checked_mul r c); [|discriminate].
+      destruct ((n <=? cf_cap cf)%N && (S k <? N.to_nat n)); inversion Ef; subst; exact Hi.
+    + (* fill *)
+      destruct (Nat.ltb_spec (S k) (length (data (h_td h)))); inversion Ef; subst; cbn [h_td].
+      destruct Hi as [Hl Hz]. split; cbn [data num_rows num_cols]; [|exact Hz].
+      rewrite app_length, repeat_length, skipn_length. lia.
+    + destruct (k <? length (data (h_td h))); inversion Ef; subst; exact Hi.
+    + destruct (zero_rule_ok c r); [|discriminate]. destruct (checked_mul c r); [|discriminate].
+      destruct ((n =? N.of_nat (length d))%N && (k <? length d)); inversion Ef; subst; exact Hi.
+    + destruct (zero_rule_ok c r); [|discriminate]. destruct (checked_mul c r); [|discriminate].
+      destruct ((n <=? cf_cap cf)%N && (k <? N.to_nat n)); inversion Ef; subst; exact Hi.
+  - (* clone_from *)
+    destruct (negb (zero_rule_ok c r)) eqn:Ez; [inversion H; subst; exact Hi|].
+    apply Bool.negb_false_iff in Ez.
+    unfold checked_mul in H. destruct (N.ltb_spec (c * r) W); [|inversion H; subst; exact Hi].
+    destruct (N.eqb_spec (c * r) (N.of_nat (length d))) as [E|E]; inversion H; subst; [|exact Hi].
+    cbn [h_td]. split; cbn [data num_rows num_cols]; [lia|apply zero_rule_nat; exact Ez].
 Qed.
 
 (** every state of every history *)
